@@ -93,11 +93,97 @@ def main():
         except Exception as e:
             return '%s: %s' % (type(e).__name__, str(e)[:60])
 
+    # ---- multiunion on both sides of the switch to the radix sort (more than 800 keys: the work buffer, whose failure is
+    #      absorbed by falling back to quicksort, and the result vectors): every allocation index fails once
+    if job.get('bigmulti') and hasattr(M, 'multiunion') and fam[0] in 'ILUQ':
+        import random
+        rng = random.Random(7)
+        bits = 64 if fam[0] in 'LQ' else 32
+        lo_, hi_ = (-(1 << (bits - 1)), (1 << (bits - 1)) - 1) if fam[0] in 'IL' else (0, (1 << bits) - 1)
+        for total in (700, 900, 1700):
+            ks_ = sorted({rng.randint(lo_, hi_) for _ in range(total)} | {lo_, hi_})
+            sh = list(ks_)
+            rng.shuffle(sh)
+            ops_ = [SE(sh[:total // 3]), sh[total // 3:2 * total // 3], TS(sh[2 * total // 3:]), sh[:7]]
+            arm(0)
+            res0 = []
+            out0 = guarded(lambda: res0.append(list(M.multiunion(ops_))))
+            n1 = last_allocs[0]
+            counts['partb_calls'] += 1
+            if out0 != 'ok' or res0[0] != ks_:
+                mism.append(dict(fam=fam, is_set=is_set, sizes=[job['leaf'], job['internal']], op='multiunion-big', total=total, kind='wrong-result-without-fault', real=out0))
+                continue
+            for n in range(1, n1 + 2):
+                got = []
+                arm(n)
+                out = guarded(lambda: got.append(list(M.multiunion(ops_))))
+                counts['partb_faults'] += 1
+                if out == 'MemoryError':
+                    continue
+                if out != 'ok' or got[0] != ks_:
+                    mism.append(dict(fam=fam, is_set=is_set, sizes=[job['leaf'], job['internal']], op='multiunion-big %d' % total, fail_at=n, allocations=n1, kind='no-MemoryError', real=out))
+            if [list(o) if not isinstance(o, list) else o for o in ops_][0] != sorted(sh[:total // 3]):
+                mism.append(dict(fam=fam, is_set=is_set, sizes=[job['leaf'], job['internal']], op='multiunion-big %d' % total, kind='operand-changed'))
+
+    def embeds_(p, root=True):
+        if p['t'] == 'L':
+            return False
+        if not root and len(p['kids']) == 1 and p['kids'][0]['t'] == 'L':
+            return True
+        return any(embeds_(c, False) for c in p['kids'])
+
     for ti in job['indices']:
         tr = payloads[ti]
         if tr['act']['op'] in ('badkey', 'badval', 'clear', 'delitem', 'pop', 'popitem'):
             continue
         path = g.path_to(tr['from'])
+        if job.get('stored') and tr['act']['op'] in ('setitem', 'insert') and not embeds_(tr['from']) and tr['from']['kids']:
+            # ---- the same insert on a *stored* tree with every node evicted: loading the nodes on the way allocates too
+            #      (their vectors), and a load that fails leaves a ghost behind, not a half-built node
+            from harness import minijar
+
+            def stored():
+                t_ = build(path)
+                jar_ = minijar.Jar(minijar.Store())
+                jar_.add(t_)
+                jar_.commit()
+                jar_.cache.minimize()
+                return t_, jar_
+            before_c = contents(setify(tr['from']))
+            done_c = contents(setify(tr['to']))
+            t, jar = stored()
+            arm(0)
+            out0 = guarded(lambda: apply(t, emb, tr['act'], 0))
+            n1 = last_allocs[0]
+            counts['stored_calls'] = counts.get('stored_calls', 0) + 1
+            del t, jar
+            for n in range(1, min(n1, 40) + 1):
+                t, jar = stored()
+                arm(n)
+                rr = []
+                out = guarded(lambda: rr.append(apply(t, emb, tr['act'], 0)))
+                if out == 'ok' and rr and rr[0][0] == 'exc':
+                    out = rr[0][1]          # (api.apply reports exceptions as results)
+                counts['stored_faults'] = counts.get('stored_faults', 0) + 1
+                w2 = dict(fam=fam, is_set=is_set, sizes=[job['leaf'], job['internal']], act=tr['act'], op='stored-insert', fail_at=n, allocations=n1)
+                if out != 'MemoryError':
+                    mism.append(dict(w2, kind='no-MemoryError', real=out))
+                try:
+                    after_c = contents(P.proj(t, emb, is_set))
+                except Exception as e:
+                    mism.append(dict(w2, kind='unreadable-after-fault', real=repr(e)[:100]))
+                    continue
+                if after_c != before_c and after_c != done_c:
+                    mism.append(dict(w2, kind='partial-change', real=after_c))
+                c = check(t)
+                if c != 'ok':
+                    mism.append(dict(w2, kind='unsound-after-fault', real=c))
+                workload(t)
+                c = check(t)
+                if c != 'ok':
+                    mism.append(dict(w2, kind='unsound-after-workload', real=c))
+                jar.cache.minimize()
+                del t, jar
         before, done = setify(tr['from']), setify(tr['to'])
         t = build(path)
         arm(0)
